@@ -1,4 +1,5 @@
 import os
+import struct
 import logging
 import asyncio
 import sqlite3
@@ -748,6 +749,15 @@ class Database(SQLiteMixin):
             'height': tx.height, 'position': tx.position, 'is_verified': tx.is_verified
         }, 'txid = ?', (tx.id,)))
 
+    @staticmethod
+    def _has_known_script(txo: Output) -> bool:
+        # scripts matching none of our templates (bare multisig, malformed pushes, ...)
+        # fail to parse; such outputs can't belong to this wallet
+        try:
+            return txo.script.template is not None
+        except (ValueError, struct.error):
+            return False
+
     def _transaction_io(self, conn: sqlite3.Connection, tx: Transaction, address, txhash):
         conn.execute(*self._insert_sql('tx', self.tx_to_row(tx), replace=True)).fetchall()
 
@@ -756,6 +766,8 @@ class Database(SQLiteMixin):
         for txi in tx.inputs:
             if txi.txo_ref.txo is not None:
                 txo = txi.txo_ref.txo
+                if not self._has_known_script(txo):
+                    continue
                 if txo.has_address and txo.get_address(self.ledger) == address:
                     is_my_input = True
                     conn.execute(*self._insert_sql("txi", {
@@ -766,6 +778,8 @@ class Database(SQLiteMixin):
                     }, ignore_duplicate=True)).fetchall()
 
         for txo in tx.outputs:
+            if not self._has_known_script(txo):
+                continue
             if txo.script.is_pay_pubkey_hash and (txo.pubkey_hash == txhash or is_my_input):
                 conn.execute(*self._insert_sql(
                     "txo", self.txo_to_row(tx, txo), ignore_duplicate=True
